@@ -2067,6 +2067,30 @@ def m_local_key_with(I, st, fn, ce, args, line, depth, dest_ty, may_unwind):
     return I.call_value(st, args[1], [cell], fn, line, depth, dest_ty, may_unwind)
 
 
+def m_local_key_try_with(I, st, fn, ce, args, line, depth, dest_ty, may_unwind):
+    """`LocalKey::try_with(f)`: like `with`, the result wrapped in Ok (the AccessError case - a thread-local that is being
+    destroyed - is not a path of a type without drop glue and is not explored)"""
+    outs = m_local_key_with(I, st, fn, ce, args, line, depth, None, may_unwind)
+    return [(k, _res(0, [v]) if k == "ret" else v, s) for k, v, s in outs]
+
+
+def m_opt_copied(I, st, fn, ce, args, line, depth, dest_ty, may_unwind):
+    """`Option<&T>::copied()` / `cloned()` on references (Copy payloads): Some(&x) -> Some(x), None -> None"""
+    out = []
+    for k, payload, s2 in I.variants_of(st, args[0]):
+        if k == 1:
+            v = payload
+            if v is not None and v[0] == "ref":
+                try:
+                    v = I.load(s2, v[1])
+                except Undecided:
+                    return None
+            out.append(("ret", _opt(1, [v]), s2))
+        else:
+            out.append(("ret", _opt(0, []), s2))
+    return out
+
+
 def m_try_branch(I, st, fn, ce, args, line, depth, dest_ty, may_unwind):
     v = args[0]
     CF = "std::ops::ControlFlow"
@@ -2236,6 +2260,9 @@ MODELS = {
     "<std::vec::Vec<T, A> as std::ops::DerefMut>::deref_mut": m_identity,
     "<std::panic::AssertUnwindSafe<T> as std::ops::Deref>::deref": m_deref_field0,
     "std::thread::LocalKey::<T>::with": m_local_key_with,
+    "std::thread::LocalKey::<T>::try_with": m_local_key_try_with,
+    "std::option::Option::<&T>::copied": m_opt_copied,
+    "std::option::Option::<&mut T>::copied": m_opt_copied,
     "std::sync::atomic::AtomicBool::load": m_atomic_load,
     "std::sync::atomic::AtomicBool::store": m_atomic_write("store"),
     "std::sync::atomic::AtomicBool::swap": m_atomic_write("swap"),
